@@ -94,9 +94,25 @@ def gen_case(r, tier, long_blocks=0):
     return ops
 
 
+def gen_far(r):
+    """carry the block counter across the higher byte boundaries (2^24, 2^32, 2^40, 2^56 blocks) by jumping close to
+    them (`seek`, justified by the proved stream invariant) and crossing with straddling and multi-block calls"""
+    ops = ["expand " + rkey(r), "init %d" % rnonce(r)]
+    if r.chance(1, 2):
+        ops.append(stream_op(r, r.choice([1, 16, 33])))
+    boundary = r.choice([1 << 24, 1 << 32, 1 << 32, 1 << 40, 1 << 48, 1 << 56, (1 << 32) * 3, 1 << 59])
+    back = r.choice([1, 2, 3, 5, 17])
+    ops.append("seek %d" % (boundary - back))
+    for _ in range(r.range(2, 5)):
+        ops.append(stream_op(r, r.choice([0, 1, 15, 16, 17, 32, 33, 16 * back, 16 * back + 16, 16 * back + 40, 200])))
+    return ops
+
+
 def gen_aes(rng, tier, mult):
     n = (1000 if tier == "quick" else 6000) * mult
     cases = []
+    for ci in range(max(20, n // 25)):
+        cases.append(gen_far(rng.fork("far%d" % ci)))
     for ci in range(n):
         r = rng.fork("a%d" % ci)
         lb = 0
